@@ -72,4 +72,24 @@ CHECKS["C08"] = dict(
          "the root, on sub-objects and free-standing. Sibling aliasing or a block of a non-random sub-object being enforced appears as the "
          "wrong variable / an extra conjunct in the lowered formula, i.e. a pointwise mismatch.",
     design_ref="DESIGN.md section 3, C08", note=_SOLVER_NOTE)
+
+CHECKS["C04"] = dict(
+    level="exploration",
+    technique="runtime monitors: snapshots of every list through all read paths after every call and every list edit + reference list semantics with the size as an enumerated variable + solver-formula monitor for fixed-size lists",
+    text="Scalar lists (fixed size 0-3, random size up to 2-3, non-random), a second list and lists of objects with foreach (element, index, "
+         "both, index arithmetic guarded by if_then(i>0), over objects), sum, unique, unique_vec, size and membership constraints; "
+         "append / extend / assign / clear between calls (also after failed calls). After every call: every list statement evaluated over "
+         "exactly the exposed elements, len() == size == number of iterated elements, indexing == iteration, fixed-size lists keep their "
+         "length, the final size is one the reference admits; after every edit the exposed list equals the expected one.",
+    design_ref="DESIGN.md section 3, C04", note=_SOLVER_NOTE + " Pointwise formula equivalence is not applied to calls with a random-size list "
+    "(the library's pre-extended element variables have no stable counterpart); those calls are judged at the API boundary. Several genuine "
+    "random-size-list defects are known findings (F9, F26, F27, F28).")
+CHECKS["C05"] = dict(
+    level="exploration",
+    technique="runtime monitor: exact greedy-by-priority soft-constraint reference over the exhaustively enumerated hard solution set, compared with the values returned by every call",
+    text="Programs with 0-5 hard and 1-6 soft statements (conflicts of every arity, softs under if/else-if/else and implies with random and "
+         "non-random guards, several blocks, inline softs), 3-6 calls each. Violations: a call whose hard system is satisfiable fails or "
+         "raises; returned values outside the set the greedy reference admits (later statement first, inline over class-level, guarded soft "
+         "= implication). Where the property leaves the order unspecified (softs of different class blocks) every block order is accepted.",
+    design_ref="DESIGN.md section 3, C05", note=_SOLVER_NOTE)
 NOT_YET = {}
